@@ -85,6 +85,15 @@ pub fn expr_params(e: &E, out: &mut Col) {
             out.push(PV::I32(crate::expr_spec::SUB_BOUND));
         }
         E::Exists | E::ScalarSub => out.push(PV::I32(crate::expr_spec::SUB_BOUND)),
+        E::InTuples(cols, rows) => {
+            for c in cols {
+                expr_params(c, out);
+            }
+            for (x, y) in rows {
+                out.push(PV::Int(*x));
+                out.push(PV::Int(*y));
+            }
+        }
         other => {
             for c in other.children() {
                 expr_params(c, out);
